@@ -1,3 +1,4 @@
+import Unimock.Generated.Control
 import Unimock.Lemmas.State
 import Unimock.Model.Lifecycle
 import Unimock.Props.C18
@@ -292,5 +293,34 @@ theorem C08_log_append_only (env : Env α ρ) (w : World α ρ) (evs : List (Eve
   | cons e es ih =>
     simp only [run]
     exact (C08_step_log_append_only env w e).trans (ih _)
+
+/-! ### the error path as the source has it (`Generated/Control.lean`, re-translated on every run) -/
+
+/-- every `Err` of `eval::eval` is handed by `private::eval` to `handle_error`, which hands it to `induce_panic`, whose
+    statement list records the error in the shared log *before* it panics, and panics with the error's own text — with no
+    condition on either step -/
+theorem C08_source_error_path :
+    Generated.evalHandlesError = true ∧ Generated.handleErrorInduces = true ∧
+    Gates.runE Generated.inducePanicSteps false false = some (true, true) := by decide
+
+/-- a continuation the generated method body cannot serve (no answer function run, no real function registered, no default
+    body) is reported through the same `induce_panic`, as the error of its kind -/
+theorem C08_source_report_path :
+    Generated.reportInduces = true ∧ ∀ c, Generated.reportError c = Gates.specReportError c :=
+  ⟨rfl, fun c => by cases c <;> rfl⟩
+
+/-- the forwarding gate of `teardown` as the source has it: an original that reaches the decision with a non-empty log
+    reports the log, whatever the counters say (read off the re-translated statement list) -/
+theorem C08_source_teardown_forwards (o : Gates.Obs) (h1 : o.original = true) (h2 : o.panicking = false)
+    (h3 : o.others = false) (h4 : o.otherThread = false) (h5 : o.reasons = true) :
+    (Gates.run Generated.teardownSteps o {}).1 = .errsReasons := by
+  obtain ⟨a, b, c, d, e, f, g, k⟩ := o
+  simp only at h1 h2 h3 h4 h5; subst h1 h2 h3 h4 h5
+  cases d <;> cases e <;> cases k <;> rfl
+
+/-- the two responder kinds that can make the mock itself panic — an explicit `panics(..)` and an exhausted single-use value —
+    leave `eval::eval` as `Err(MockError::…)`, i.e. through the recording path above, not as a direct `panic!` -/
+theorem C08_source_responder_errors_are_errors :
+    Generated.dispatch .panic = .errExplicitPanic ∧ Generated.dispatch .ret = .returnOrCannotReturnTwice := ⟨rfl, rfl⟩
 
 end Unimock
